@@ -127,6 +127,21 @@ def check_run(case, res, counters):
         elif exc is not None:
             add('C16:spurious-exception:%s' % type(exc).__name__, 'emit #%d raised %r without a failing invocation' % (i, exc))
     counters['faults_injected'] = counters.get('faults_injected', 0) + injected
+    # a consumer that hands back an awaitable: the body behind it (where the injected failure sits) must have been run by
+    # the time everything has settled -- an awaitable nobody awaits swallows the failure together with the element
+    entry_pos = [(e[0], e[4]) for e in log.ev if e[2] == 'ENTRY']
+    for name, fn in res.inj.fns.items():
+        left = []
+        for i, pos in sorted(getattr(fn, 'pending_bodies', {}).items()):
+            emit_idx = max([k for p, k in entry_pos if p <= pos] or [None])
+            if emit_idx in errs:
+                continue        # the walk of that emit was aborted by a failure: what it had collected so far is dropped with it
+            left.append(i)
+        if left:
+            counters['exception_identity_checks'] = counters.get('exception_identity_checks', 0) + 1
+            add('C16:fault-swallowed:consumer-awaitable-never-awaited@%s' % specs.get(name.split(':')[0], {}).get('op', '?'),
+                'calls %s of %s returned an awaitable that was never awaited%s' % (left[:6], name,
+                 ' (call %d was to fail)' % [i for i in left if i in fn.fail][0] if any(i in fn.fail for i in left) else ''))
     if res.node_loop_bound and injected:
         counters['faults_transported_through_sync'] = counters.get('faults_transported_through_sync', 0) + injected
     if case.get('async_sinks') and injected:
